@@ -61,6 +61,41 @@ class Body:
         self._loop_heads = heads
         return heads
 
+    def loop_bodies(self):
+        """head -> blocks of the natural loop(s) with that head (incl. cleanup edges)"""
+        if getattr(self, '_loop_bodies', None) is not None:
+            return self._loop_bodies
+        heads = self.loop_heads()
+        preds = {}
+        for b in range(len(self.blocks)):
+            for t in self.succs(b, True):
+                preds.setdefault(t, set()).add(b)
+        # dominance is not needed: a back edge is an edge into a head from a block the head reaches
+        reach = {}
+        for h in heads:
+            seen = {h}
+            st = [h]
+            while st:
+                n = st.pop()
+                for t in self.succs(n, True):
+                    if t not in seen:
+                        seen.add(t)
+                        st.append(t)
+            reach[h] = seen
+        out = {}
+        for h in heads:
+            body = {h}
+            st = [b for b in preds.get(h, ()) if b in reach[h]]
+            while st:
+                n = st.pop()
+                if n in body:
+                    continue
+                body.add(n)
+                st.extend(preds.get(n, ()))
+            out[h] = body
+        self._loop_bodies = out
+        return out
+
     # ---- local liveness (used to prune dead temporaries at loop heads) -------------
     def _place_uses(self, p, uses):
         uses.add(p['local'])
